@@ -201,6 +201,25 @@ def others(rep, rng, tier):
                         pass
             if sorted(oa) != sorted(vals) or sorted(ob) != sorted(vals):
                 fails.append(('local_shuffle_interleaved', {'values': vals, 'a': oa, 'b': ob}))
+            # an iterator over a reshuffling dataset and one over a COPY of it in flight at the same time
+            # (different objects: not the known finding F10, which is about two iterators over one object)
+            if n >= 2:
+                ro = ds.shuffle(reshuffle=True, rng=np.random.RandomState(seed))
+                rc = rng.choice([lambda: ro.copy(), lambda: ro.map(lambda x: x).copy(), lambda: lazy_dataset.core.ProfilingDataset(ro)])()
+                ia, ib = iter(ro), None
+                oa, ob = [], []
+                k0 = rng.randrange(1, n)
+                for _ in range(k0):
+                    oa.append(next(ia))
+                ib = iter(rc)
+                for _ in range(n + 1):
+                    for it, o in ((ib, ob), (ia, oa)):
+                        try:
+                            o.append(next(it))
+                        except StopIteration:
+                            pass
+                if sorted(oa) != sorted(vals) or sorted(ob) != sorted(vals):
+                    fails.append(('reshuffle_original_and_copy_in_flight', {'values': vals, 'original': oa, 'copy': ob, 'seed': seed}))
             # frozen copy of a reshuffle: one fixed permutation, immune to later iterations
             rs = ds.shuffle(reshuffle=True, rng=np.random.RandomState(seed))
             fz = rs.copy(freeze=True)
